@@ -374,14 +374,17 @@ pub fn scope_program(path: &[Ctor], wrapper: usize, layout: usize) -> Program {
     } else if layout == 4 {
         // a diamond: the prelude is included directly and again through mid.td, which goes on
         // declaring and using names after the repeated include
-        let mut root = vec![Item::Include("inc.td".into()), Item::Include("mid.td".into())];
+        // ... and two further included files with the same text: the same names are used at the same
+        // offsets of different files
+        let mut root = vec![Item::Include("inc.td".into()), Item::Include("mid.td".into()), Item::Include("t1.td".into()), Item::Include("t2.td".into())];
         root.extend(items);
+        let twin = || vec![Item::Def { doc: vec![], blank: false, name: None, parents: vec![CRef::with("Base", vec![int(3)])], body: Some(vec![BI::Let { name: "f".into(), value: int(4) }]) }];
         let mid = vec![
             Item::Include("inc.td".into()),
             Item::Def { doc: vec![], blank: false, name: Some("midd".into()), parents: vec![CRef::with("Base", vec![int(2)])], body: None },
             Item::Defvar { name: "midv".into(), value: E::Field(Box::new(id("midd")), "g".into()) },
         ];
-        Program { files: vec![("a.td".into(), root), ("inc.td".into(), prelude()), ("mid.td".into(), mid)] }
+        Program { files: vec![("a.td".into(), root), ("inc.td".into(), prelude()), ("mid.td".into(), mid), ("t1.td".into(), twin()), ("t2.td".into(), twin())] }
     } else if layout == 3 {
         // forward declared in the root, defined in the included file
         let mut root = vec![forward(), Item::Include("inc.td".into())];
@@ -914,6 +917,12 @@ pub fn hover_programs(mut f: impl FnMut(&Program) -> bool) {
                         Item::Class { doc: vec![], blank: false, name: "R2".into(), targs: vec![TArg { ty: Ty::Int, name: "ra".into(), default: None }, TArg { ty: Ty::Int, name: "rb".into(), default: Some(int(0)) }], parents: vec![], body: None },
                         Item::Def { doc: vec![], blank: false, name: Some("r2".into()), parents: vec![CRef::with("R2", vec![E::Bang("!add".into(), None, vec![E::Field(Box::new(E::ClassVal("P".into(), vec![int(1), E::Str("s".into())], vec![])), "f".into()), int(1)])])], body: None },
                         Item::Defvar { name: "u".into(), value: E::List(vec![id("v"), id("S")]) },
+                        // some bits of an inherited field overridden on the way down: the field keeps its declared type
+                        Item::Class { doc: vec![], blank: false, name: "R8".into(), targs: vec![], parents: vec![], body: Some(vec![field(Ty::Bits(8), "enc", Some(int(0)), &[], false)]) },
+                        Item::Class { doc: vec![], blank: false, name: "Mid8".into(), targs: vec![], parents: vec![CRef::plain("R8")], body: Some(vec![BI::Let { name: "enc{3-0}".into(), value: int(5) }]) },
+                        Item::Class { doc: vec![], blank: false, name: "Leaf8".into(), targs: vec![], parents: vec![CRef::plain("Mid8")], body: Some(vec![BI::Let { name: "enc".into(), value: int(1) }]) },
+                        Item::Def { doc: vec![], blank: false, name: Some("d8".into()), parents: vec![CRef::plain("Mid8")], body: Some(vec![BI::Let { name: "enc{7}".into(), value: int(1) }]) },
+                        Item::Def { doc: vec![], blank: false, name: Some("e8".into()), parents: vec![CRef::plain("Leaf8")], body: Some(vec![BI::Let { name: "enc".into(), value: int(2) }, field(Ty::Bits(8), "viaf", Some(E::Field(Box::new(id("d8")), "enc".into())), &[], false)]) },
                     ];
                     for layout in 0..2 {
                         let prog = if layout == 0 {
